@@ -178,6 +178,17 @@ def rebuild_rule(an: Analysis, rep, rule: str, entries, doc=None):
                         b = attr_chain(v.value)
                         if b:
                             bases.setdefault(b, []).append(name)
+                    # the same for a JSON object: D(a=doc["a"], b=tuple(doc.get("b", ())), ...)
+                    for x in ast.walk(v):
+                        key = None
+                        if isinstance(x, ast.Subscript) and isinstance(x.slice, ast.Constant) and x.slice.value == name:
+                            key = attr_chain(x.value)
+                        elif isinstance(x, ast.Call) and isinstance(x.func, ast.Attribute) and x.func.attr in ("get", "pop") and x.args and isinstance(x.args[0], ast.Constant) \
+                                and x.args[0].value == name:
+                            key = attr_chain(x.func.value)
+                        if key:
+                            bases.setdefault(key + "[...]", []).append(name)
+                            break
                 src = [(b, fs) for b, fs in bases.items() if len(fs) >= 2]
                 if not src:
                     continue
